@@ -26,7 +26,7 @@ EXPECTED_PROBES = ['m_skip_after_subtest_fail', 'm_branch_taken', 'm_branch_not_
                    'm_fail_subtest']
 
 PROF = gen.profile(max_nodes=14, max_depth=4, w_phase=8, w_group=4, w_subtest=4, w_branch=3, w_ckpt_fail=2,
-                   w_ckpt_diag=2, p_diag=350, p_fault_beh=300, p_timeout=30, watchers=200, p_profile=100)
+                   w_ckpt_diag=2, p_diag=350, p_fault_beh=300, p_timeout=30, watchers=200, p_profile=100, p_monitor=150)
 
 
 def setup():
